@@ -243,6 +243,28 @@ func (r *sessRun) drop(i int) {
 	r.peers = append(r.peers[:i], r.peers[i+1:]...)
 }
 
+// dropInFlight: the session ends while one of its registrations is parked in the middle of the pipeline (after the name check,
+// before the proxy runs). The teardown has to wait for the handler; nothing of the session may be left once it is gone.
+func (r *sessRun) dropInFlight(i int, name string) {
+	r.stat("drop_inflight")
+	p := r.peers[i]
+	run := p.run
+	g := sched.Arm("ctl.exist.pass", func(kv sched.KV) bool { return kv["run_id"] == run })
+	_ = p.Send(&msg.NewProxy{ProxyName: name, ProxyType: "stcp", Sk: "k"})
+	_, hit := g.WaitHit(1 * time.Second)
+	if hit {
+		r.stat("gate_hit")
+	}
+	r.sink.Emit("drv", "drv.conn.close", "host", p.host)
+	p.Close()
+	time.Sleep(150 * time.Millisecond)
+	g.Release()
+	r.waitGone(p.run, p.host)
+	time.Sleep(80 * time.Millisecond)
+	r.dead = append(r.dead, p.run)
+	r.peers = append(r.peers[:i], r.peers[i+1:]...)
+}
+
 func (r *sessRun) register(p *sessPeer, name string) {
 	r.stat("register")
 	_, err := p.NewProxy(&msg.NewProxy{ProxyName: name, ProxyType: "stcp", Sk: "k"}, 3*time.Second)
@@ -454,8 +476,10 @@ func (r *sessRun) one(traceNo int, steps int) {
 				}
 			}
 			r.workconn(run, r.rnd.Intn(3) != 0)
-		case x < 82:
+		case x < 78:
 			r.drop(i)
+		case x < 82:
+			r.dropInFlight(i, r.names[r.rnd.Intn(len(r.names))])
 		default:
 			if p.plain {
 				r.drop(i)
